@@ -208,6 +208,10 @@ class Conc(object):
             self.kw[i] = k
         if fam == "kwdom":
             self.kw[1] = labels[0]
+        if fam in ("kwsub", "kwsup") and nid["kw"] >= 2:
+            # one configured keyword is a part of another one (secret / topsecret), in both orders of configuration
+            a, b = (1, 2) if fam == "kwsub" else (2, 1)
+            self.kw[b] = word(rng, UP, 2, 3) + self.kw[a] + pick(rng, ["", "", word(rng, UP, 1, 2)])
         if fam == "kwhost":
             # the keyword is a part of the host label of dom 1 (vault / vaultsrv.corp.test)
             while True:
@@ -314,6 +318,8 @@ class Conc(object):
         k, i = t["k"], t["id"]
         if k == "text":
             w = word(rng, UP + DIG, 1, 6) if rng.random() < 0.7 else word(rng, LOW, 2, 6)
+            if self.cf["fam"] == "vt":
+                w = word(rng, UP, 1, 3) + pick(rng, ["\x0b", "\x0c", "\x1c", "\x1d", "\x1e"]) + w    # (ASCII only: independent of the locale)
             return w, w
         if k == "ip":
             return self.ip[i], self.ip[i]
@@ -655,7 +661,8 @@ def run_spec(cleaner, spec, lines, path, tmp, tag, allow_obj=None):
         p = os.path.join(tmp, "f-%s" % tag, name)
         with open(p, "w") as f:
             f.write("".join(t + "\n" for t in texts))
-        cleaner.clean_file(p, no_obfuscate=noobf, no_redact=spec["nored"])
+        cleaner.clean_file(p, no_obfuscate=noobf, no_redact=spec["nored"],
+                           allowlist=allow_obj if spec.get("allow") else None)
         if not os.path.exists(p):
             os.rmdir(os.path.dirname(p))
             return [], False, False
